@@ -593,7 +593,7 @@ structure Lex15 (ℓ α ω σ : Type) where
 inductive Level (σ : Type)
   | n (k : Nat)
   | cfg (conf spin : σ) (l : Nat) (j : σ)      -- conf + " " + spin + _L_LOOKUP[l] + j
-  deriving BEq, Repr, DecidableEq
+  deriving Repr, DecidableEq
 
 abbrev Trans (σ : Type) := Level σ × Level σ
 
@@ -763,10 +763,10 @@ structure Out15 (α ω σ : Type) where
   wavelength : List (Trans σ × ω)           -- Angstrom / 10
 
 /-- config[cls][...][transition] = block_num in scraping order -/
-def configOf [BEq σ] (es : List (Entry15 ω σ)) (t : RateType) : List (Trans σ × Nat) :=
+def configOf [DecidableEq σ] (es : List (Entry15 ω σ)) (t : RateType) : List (Trans σ × Nat) :=
   dictOfList ((es.filter (·.typ == t)).map fun e => (e.tr, e.block))
 
-def extractAll [BEq σ] (lex : Lex15 ℓ α ω σ) (lines : List ℓ) : List (Trans σ × Nat) → Except Err (List (Trans σ × Rate15 α))
+def extractAll [DecidableEq σ] (lex : Lex15 ℓ α ω σ) (lines : List ℓ) : List (Trans σ × Nat) → Except Err (List (Trans σ × Rate15 α))
   | [] => .ok []
   | (tr, b) :: t =>
     match extractRate lex lines b with
@@ -776,7 +776,7 @@ def extractAll [BEq σ] (lex : Lex15 ℓ α ω σ) (lines : List ℓ) : List (Tr
       | .ok rs => .ok ((tr, r) :: rs)
 
 /-- parse_adf15 -/
-def parse15 [BEq σ] (lex : Lex15 ℓ α ω σ) (s : Sel15) (lines : List ℓ) : Except Err (Out15 α ω σ) := do
+def parse15 [DecidableEq σ] (lex : Lex15 ℓ α ω σ) (s : Sel15) (lines : List ℓ) : Except Err (Out15 α ω σ) := do
   let h ← opt .value lines.head?          -- readline() of an empty file gives '', which does not match
   if !lex.fileHeader h then .error .value
   else
